@@ -131,6 +131,13 @@ Ops(V) ==
                            OpR("nth0_out", No),
                            OpR("print", TA("same_as_list")) >> ELSE <<>>)
   \o (IF V.tl = "atom" THEN << OpR("print", TA("same_as_list")) >> ELSE <<>>)
+  (* one comparison that pairs the same list with two different suffixes of one string: S-T against K-K, where T is S without *)
+  (* its first character (sharing S's cells) and K an explicit list equal to S.  The first components are equal, so the suffix decides. *)
+  (* (Two suffixes at different offsets of two strings are not compared here: that runs into the recorded defect of          *)
+  (* compare_pstr_slices, see known/C20.json.)                                                                                *)
+  \o (IF V.tl = "nil" /\ n >= 2
+      THEN LET o == Order(Tail(cs), "nil", cs, "nil")
+           IN << OpR("suffix_pair", TC("r", <<TA(o), TA(Flip(o)), TA("no")>>)) >> ELSE <<>>)
   (* number_chars/2 consumes a string of digits 1..9 (no sign, layout or leading zero): the number whose decimal notation it is, *)
   (* observed through number_codes/2; a partial list is an instantiation error (ISO 8.16.7)                                      *)
   \o (IF n >= 1 /\ (\A j \in 1..n : cs[j] >= 49 /\ cs[j] <= 57) /\ V.tl # "atom"
